@@ -254,7 +254,7 @@ def _piu_calls(node):
     return [c for c in ast.walk(node) if isinstance(c, ast.Call) and dotted(c.func) and dotted(c.func).endswith("param_index_update")]
 
 
-def d3(ctx):
+def d3_param_index_update(ctx):
     rule = "D3/T5-parameter-slots"
     # param_index_update table
     piu = ctx.need(f"{OBJ}:param_index_update")
@@ -295,6 +295,11 @@ def d3(ctx):
     if nbranches < len(params_nt.fields):
         ctx.refuted(rule, piu, None, construct="param_index_update:coverage",
                     detail=f"{nbranches} index branches for {len(params_nt.fields)} Params fields")
+
+
+def d3(ctx):
+    rule = "D3/T5-parameter-slots"
+    d3_param_index_update(ctx)
     # Objective.__init__ closures
     init = ctx.need(f"{OBJ}:Objective.__init__")
     n_cl = 0
